@@ -441,7 +441,7 @@ func Queries() Spec {
 
 // QueriesMany (C17): sub-lists with more than 100 elements — the default page limit of an un-paginated ORM listing —
 // inside answers that carry NO pagination: the allowed classes of one basket (Query/Basket), the allowed class
-// creators / denoms of the aggregate Params query, the issuers of one class. 101 of each.
+// creators / denoms / bridge chains of the aggregate Params query and of the un-paginated AllowedBridgeChains query, the issuers of one class. 101 of each.
 func QueriesMany() Spec {
 	seed := explore.Seed{Name: "101-classes-in-a-basket,101-creators,101-issuers", Build: func(c *chain.Chain) sdk.Context {
 		ctx := c.BaseContext(chain.T0, 1)
@@ -461,8 +461,10 @@ func QueriesMany() Spec {
 			Msg("seed:basket BIG (101 classes)", &baskettypes.MsgCreate{Curator: A.String(), Name: "BIG", DisableAutoRetire: true, CreditTypeAbbrev: "C", AllowedClasses: classes, Fee: sdk.NewCoins(coin("uregen", 10))}),
 			Msg("seed:101 issuers of C01", &basetypes.MsgUpdateClassIssuers{Admin: A.String(), ClassId: "C01", AddIssuers: many}),
 		)
-		for _, m := range many {
-			acts = append(acts, Msg("seed:creator", &basetypes.MsgAddClassCreator{Authority: G.String(), Creator: m}))
+		for i, m := range many {
+			acts = append(acts, Msg("seed:creator", &basetypes.MsgAddClassCreator{Authority: G.String(), Creator: m}),
+				Msg("seed:bridge-chain", &basetypes.MsgAddAllowedBridgeChain{Authority: G.String(), ChainName: fmt.Sprintf("chain%03d", i)}),
+				Msg("seed:allowed-denom", &markettypes.MsgAddAllowedDenom{Authority: G.String(), BankDenom: fmt.Sprintf("udenom%03d", i), DisplayDenom: fmt.Sprintf("denom%03d", i), Exponent: 6}))
 		}
 		return mustRun(c, ctx, acts...)
 	}}
